@@ -185,8 +185,17 @@ class Ctx:
         hd = harness_dir()
         t = time.time()
         cmd = ["cargo", "build", "--offline", "-p", crate]
-        p = subprocess.run(cmd, cwd=hd, env=self.env, stdout=subprocess.PIPE, stderr=subprocess.STDOUT,
-                           timeout=timeout, text=True)
+        for attempt in range(6):
+            p = subprocess.run(cmd, cwd=hd, env=self.env, stdout=subprocess.PIPE, stderr=subprocess.STDOUT,
+                               timeout=timeout, text=True)
+            # a sibling crate being edited by another builder can make the workspace unloadable for a moment
+            if p.returncode != 0 and "failed to load manifest for workspace member" in p.stdout \
+                    and f"props/{crate}`" not in p.stdout and attempt < 5:
+                time.sleep(20)
+                if hd != HARNESS:
+                    hd = harness_dir()
+                continue
+            break
         if p.returncode != 0:
             raise ToolError(f"cargo build -p {crate} failed:\n" + _tail(p.stdout, 60))
         log(f"built {crate} in {round(time.time()-t,1)}s")
